@@ -5,7 +5,58 @@ implementation vs extracted model (exhaustive over the first two bytes in both t
 and the 'pc = ..; loaded [..]' line of real runs vs the model's trace_line (through the
 shared sim engine, see simcheck)."""
 import random
+import re
+import gen
 import lib
+import simcheck
+
+LEN = {0: 1, 1: 1, 2: 2, 3: 10, 4: 10, 5: 10, 6: 2, 7: 9, 8: 9, 9: 1, 10: 2, 11: 2}
+
+
+def trace_part(report, rng, tier):
+    """The 'pc = ..; loaded [..]' line of real runs: a window sliding byte by byte over a random
+    image (so every cycle fetches another first byte), under every option set that shows or hides
+    the trace; text equal to the model's trace_line, and judged directly: pc, byte count by opcode,
+    bytes = the image bytes at pc in memory order."""
+    n = 40 if tier == "quick" else 600
+    cases, images = {}, {}
+    for i in range(n):
+        start = rng.choice([0, 0, 3, 0x7f0])
+        step = rng.choice([1, 1, 2, 7])
+        hcl = "register pP { pc : 64 = %d; }\np_pc = P_pc + %d;\npc = P_pc;\nStat = STAT_AOK;\n" % (start, step)
+        img = bytes(rng.choice([rng.getrandbits(8), rng.choice([0x00, 0x10, 0x20, 0x26, 0x30, 0x40, 0x50, 0x60, 0x63, 0x70, 0x76, 0x80, 0x90, 0xA0, 0xB0, 0xC0, 0xF3])])
+                    for _ in range(120))
+        yo = "\n".join(gen.yo_line(start + k, img[k:k + 10]) for k in range(0, len(img), 10)) + "\n"
+        flags = rng.choice(["-", "-", "d", "t", "a", "da", "dt", "u", "q"])
+        cid = "t%d" % i
+        cases[cid] = {"hcl": hcl, "yo": yo, "cycles": 24, "flags": flags, "timeout": 9999}
+        images[cid] = (start, step, img)
+    impl, model, stats = simcheck.run_sim_cases(report, cases, key_prefix="trace")
+    lines_checked = 0
+    for cid, (start, step, img) in images.items():
+        quiet = "q" in cases[cid]["flags"]
+        outs = [bytes.fromhex(l[4:]).decode("utf-8", "replace") if l[4:] != "-" else "" for l in impl.get(cid, []) if l.startswith("out ")]
+        for k, text in enumerate(outs):
+            pc = start + k * step
+            m = re.search(r"^pc = 0x([0-9a-f]+); loaded \[((?:[0-9a-f]{2} )*): (.*)\]$", text, re.M)
+            rep = {"case": cases[cid], "cycle": k, "out": text[:300]}
+            if quiet:
+                if m:
+                    report.violation("trace-shown-under-q", "-q still prints the instruction trace", rep)
+                continue
+            if not m:
+                report.violation("trace-line-missing", "cycle %d: no 'pc = ..; loaded [..]' line under options %r" % (k, cases[cid]["flags"]), rep)
+                continue
+            lines_checked += 1
+            b0 = img[pc - start] if pc - start < len(img) else 0
+            want_len = LEN.get(b0 >> 4, 1)
+            want = [img[pc - start + j] if pc - start + j < len(img) else 0 for j in range(want_len)]
+            got = [int(x, 16) for x in m.group(2).split()]
+            if int(m.group(1), 16) != pc or got != want:
+                report.violation("trace-bytes", "cycle %d: pc=%x shows pc=%s bytes %s, memory holds %s" % (k, pc, m.group(1), m.group(2), bytes(want).hex()), rep)
+            if (b0 >> 4) > 11 and m.group(3) != "<invalid>":
+                report.violation("trace-invalid-not-marked", "opcode byte %02x not marked invalid" % b0, rep)
+    return len(cases), lines_checked
 
 
 def check(report, tier, seed):
@@ -35,7 +86,10 @@ def check(report, tier, seed):
                        key_fn=lambda cid, info, a, b: "disasm-opcode-%s" % info["value"][-2:],
                        what="disassembly differs from the model proved equal to the CS:APP table")
     distinct = len(set(tuple(v) for v in impl.values()))
-    report.coverage["evaluations"] = len(lines)
+    ntrace, ltrace = trace_part(report, rng, tier)
+    report.coverage["trace_runs"] = ntrace
+    report.coverage["trace_lines_checked"] = ltrace
+    report.coverage["evaluations"] = len(lines) + ntrace
     report.coverage["distinct_nontrivial"] = distinct
     report.coverage["exhaustive"] = True
     report.coverage["rule"] = ("every value of the first two instruction bytes (65536) x %d immediates "
